@@ -5,12 +5,15 @@
   Proved here: the enum tables per spec version; the parser half of the round trip for trees of
   any depth and fan-out (the component tree given to the parser is the containment tree of the
   parsed node list, identifiers in preorder, sole root); the edge relation of sub-list grafting.
-  PARTIAL: the serializer half ("the hierarchy builder yields the containment tree for every
-  permutation of the stored edges") is not yet proved in Lean; it is decided by the correspondence
-  stream `cdx` (model of the two-pass builder vs the implementation, trees with shuffled and
-  reversed edge lists, second pass) and its oracle.
+  The serializer half (end of this file): on containment forests the two-pass hierarchy builder
+  nests under every node its complete subtree, whatever the order of the stored edges and of the
+  visits (`serializer_builds_forest`, from the invariant `nest_spec` in Proofs/Nest.lean).
+  PARTIAL: the two halves are not composed into one equation `unserCDX (serCDX d) ≃ d`; that the
+  composition holds on generated trees (shuffled and reversed edge lists, second pass) is decided
+  by the correspondence stream `cdx` and its oracle.
 -/
 import Protobom.Proofs.Cdx
+import Protobom.Proofs.Nest
 
 namespace Protobom.C02
 open Protobom Protobom.Cdx Gen
@@ -78,5 +81,41 @@ example :
     let root : Component := .mk "r" "application" "" "" "" "" "" "" none [] [] none []
     (∀ x ∈ root.refs ++ refsL [mid, leaf "z"], x ≠ "") ∧ (root.refs ++ refsL [mid, leaf "z"]).Nodup := by
   simp [Component.refs, refsL]
+
+end Protobom.C02
+
+namespace Protobom.C02
+open Protobom Protobom.Cdx
+
+/-- **serializer half, containment forests of any depth and fan-out**: if the containment recorded
+    by the first pass (edges in ANY stored order) is a forest below known nodes and the document has
+    one root element, then the serializer succeeds, the top-level components are exactly the nodes
+    that are neither the root nor contained in a non-root node, and each of them carries its
+    COMPLETE subtree (`T`: the node's component with the subtrees of all its children nested, to any
+    depth) — independently of the order in which the second pass visits the nodes. Together with
+    `parser_returns_tree` (the parser turns nesting back into exactly the containment edges) this
+    is the structural part of the round trip; composing the two into one statement is not done. -/
+theorem serializer_builds_forest (d : Document) (md : Metadata) (nl : NodeList) (root : String) (rootNode : Node)
+    (lcs : List Lifecycle) (p1 : Pass1) (ht : String → Nat) (dflt : Component)
+    (hmd : d.metadata = some md) (hnl : d.nodeList = some nl) (hroots : nl.roots = [root])
+    (hroot : nl.getNodeByID root = some rootNode) (hrid : rootNode.id = root)
+    (hlc : serCDX.mapLifecycles md.docTypes = .ok lcs)
+    (hp1 : pass1 (fun id => (dictOf nl.nodes).any (·.1 = id)) nl.edges = .ok p1)
+    (F : Forest (childrenOf p1) ht (fun x => ((dictOf nl.nodes).lookup x).isSome = true) [root])
+    (hht : ∀ x, ht x < (dictOf nl.nodes).length + 2) :
+    ∃ (b : Bom) (placed : List String), serCDX d = .ok b ∧
+      (∀ x, x ∈ placed ↔ (x = root ∨ ∃ p, p ≠ root ∧ ((dictOf nl.nodes).lookup p).isSome = true ∧ x ∈ childrenOf p1 p)) ∧
+      b.components = clearAutoL (((dictOf nl.nodes).filter (fun kv => decide (kv.1 ∉ placed))).map
+        (fun kv => T (childrenOf p1) (fun x => ((dictOf nl.nodes).lookup x).getD dflt) ht kv.1)) ∧
+      b.deps = p1.deps :=
+  serCDX_forest d md nl root rootNode lcs p1 ht dflt hmd hnl hroots hroot hrid hlc hp1 F hht
+
+/-- the invariant behind it: one call of the hierarchy builder, on any state reached so far -/
+theorem nest_builds_complete_subtrees (children : String → List String) (c0 : String → Component) (ht : String → Nat)
+    (D : String → Prop) (P0 : List String) (F : Forest children ht D P0) (fuel : Nat) (id : String)
+    (path : List String) (st : NestSt) (hg : Good children c0 ht D P0 path st) (hD : D id) (hf : ht id < fuel)
+    (hp : id ∉ path) (hph : ∀ a ∈ path, ht id < ht a) :
+    NestPost children c0 ht D P0 path id st (nest children fuel id path st) :=
+  nest_spec children c0 ht D P0 F fuel id path st hg hD hf hp hph
 
 end Protobom.C02
